@@ -84,16 +84,21 @@ func (p c13) execProcs(c *core.Case) (*c13Result, error) {
 		digest string
 		brief  string
 		order  []int
+		env    []string
 	}
 	first := map[int]seen{}
 	fp := uint64(0)
-	for _, order := range c.Procs {
+	for pi, order := range c.Procs {
 		sub := *c
 		sub.Procs = [][]int{order}
 		in, _ := json.Marshal(&sub)
 		cmd := exec.Command(self, "solo")
 		cmd.Stdin = bytes.NewReader(in)
-		cmd.Env = append(os.Environ(), "GOMAXPROCS=1")
+		// every process lifetime gets its own process environment: what an instance
+		// writes or returns may not depend on it either (it is neither the instance's
+		// call history nor one of its options)
+		env := procEnv(pi)
+		cmd.Env = append(os.Environ(), env...)
 		var stderr bytes.Buffer
 		cmd.Stderr = &stderr
 		outb, err := cmd.Output()
@@ -115,19 +120,62 @@ func (p c13) execProcs(c *core.Case) (*c13Result, error) {
 			fp = core.Mix(fp, uint64(r.I), core.HashString(r.Digest))
 			s, ok := first[r.I]
 			if !ok {
-				first[r.I] = seen{r.Digest, r.Brief, order}
+				first[r.I] = seen{r.Digest, r.Brief, order, env}
 				continue
 			}
 			if s.digest != r.Digest && res.vio == nil {
 				t := &c.Tasks[r.I]
 				res.vio = &core.Violation{Prop: "C13", Sig: "C13/history-dependent/" + t.Kind,
-					Detail: fmt.Sprintf("instance %d (%s %s) produces different output depending on what ran earlier in the process: fresh process running instances %v gives %s (%s), fresh process running %v gives %s (%s)",
-						r.I, t.Kind, t.W.HistoryString(), s.order, s.digest, s.brief, order, r.Digest, r.Brief), Case: c}
+					Detail: fmt.Sprintf("instance %d (%s %s) produces different output depending on what ran earlier in the process: fresh process (%s) running instances %v gives %s (%s), fresh process (%s) running %v gives %s (%s)",
+						r.I, t.Kind, histBrief(t.W), strings.Join(s.env, " "), s.order, s.digest, s.brief, strings.Join(env, " "), order, r.Digest, r.Brief), Case: c}
 			}
 		}
 	}
 	res.fp = fp
 	return res, nil
+}
+
+// procEnv is the process environment of the pi-th process lifetime of a case: a
+// function of the position only, so a case replays exactly. The first process
+// has the environment every other simulated process runs in.
+func procEnv(pi int) []string {
+	return []string{
+		"GOMAXPROCS=" + []string{"1", "4", "2", "16", "3"}[pi%5],
+		"GOGC=" + []string{"100", "1", "off", "25"}[(pi/2)%4],
+		"TZ=" + []string{"UTC", "Asia/Kolkata", "America/St_Johns"}[pi%3],
+	}
+}
+
+func histBrief(w *core.WriterSpec) string {
+	h := w.HistoryString()
+	if len(h) > 300 {
+		h = h[:300] + "..."
+	}
+	return h
+}
+
+// giantTask is a writer whose single batch makes one gzip page body of 2.2-3.6 MiB
+// (a few dozen records with strings of 100 000-140 000 bytes in one page):
+// work that an implementation might split by the number of processors.
+func giantTask(r *core.Rng) core.TaskSpec {
+	sh := core.GetShape("kv")
+	prof := core.Benign
+	w := &core.WriterSpec{Shape: "kv", Codec: "gzip", Page: 64, Huge: true}
+	n := r.Range(24, 28)
+	for i := 0; i < n; i++ {
+		rec := core.GenRec(r, sh.Type, prof)
+		w.Ops = append(w.Ops, core.AddOp(core.WithString(rec, "Body", giantString(r, r.Range(100000, 140000)))))
+	}
+	w.Ops = append(w.Ops, core.WriteOp(), core.CloseOp())
+	return core.TaskSpec{Kind: "writer", W: w}
+}
+
+func giantString(r *core.Rng, n int) string {
+	b := make([]byte, n)
+	for i := range b {
+		b[i] = byte('a' + r.Intn(26))
+	}
+	return string(b)
 }
 
 // genProcs draws a fresh-process case: 2-4 instances, biased to twin shapes,
@@ -147,6 +195,10 @@ func (p c13) genProcs(r *core.Rng, tier string, runseed uint64) *core.Case {
 			}
 		}
 		c.Tasks = append(c.Tasks, t)
+	}
+	if r.Chance(1, 12) {
+		// one case in twelve: instance 0 writes one gzip page of more than 2 MiB
+		c.Tasks[0] = giantTask(r)
 	}
 	for i := 0; i < n; i++ {
 		c.Procs = append(c.Procs, []int{i})
